@@ -274,9 +274,16 @@ impl DateTime {
                 .chars()
                 .take_while(|&char| char != 'Z' && char != '+' && char != '-')
                 .collect::<String>();
-            let nanos = nanos_string.parse::<u64>().map_err(|_| {
+            if !nanos_string.chars().all(|char| char.is_ascii_digit()) {
+                return Err(create_invalid_format(
+                    "Failed parsing subseconds from RFC 3339 string".to_string(),
+                ));
+            }
+            // Digits beyond nanosecond precision are cut off
+            let significant_digits = &nanos_string[..nanos_string.len().min(9)];
+            let nanos = significant_digits.parse::<u64>().map_err(|_| {
                 create_invalid_format("Failed parsing subseconds from RFC 3339 string".to_string())
-            })? * (1000000000 / 10_u64.pow(nanos_string.len() as u32));
+            })? * 10_u64.pow(9 - significant_digits.len() as u32);
 
             let offset_substring = string[20..]
                 .chars()
